@@ -24,6 +24,7 @@ import json
 import os
 import random
 import shlex
+import zlib
 from concurrent.futures import ThreadPoolExecutor
 
 from harness import core
@@ -328,7 +329,8 @@ def render(case):
                 use_phase=use_phase)
 
 
-def probe_script(out_dir, code):
+def probe_script(out_dir, code, silent=False):
+    """silent: nothing on stderr (a program that fails without a word is a failing program all the same)"""
     return ('#!/bin/sh\n'
             'd=%s\n'
             'n=0\n'
@@ -339,8 +341,8 @@ def probe_script(out_dir, code):
             'cat /proc/$PPID/cmdline > "$d/$n.parent" 2>/dev/null\n'
             'printf \'%s\'\n'
             'printf \'%s\' >&2\n'
-            'exit %d\n' % (shlex.quote(out_dir), STDOUT_TEXT.replace('\n', '\\n'), STDERR_TEXT.replace('\n', '\\n'),
-                           code))
+            'exit %d\n' % (shlex.quote(out_dir), STDOUT_TEXT.replace('\n', '\\n'),
+                           '' if silent else STDERR_TEXT.replace('\n', '\\n'), code))
 
 
 def pyprobe_script(out_dir, code):
@@ -380,7 +382,10 @@ def exec_case(task, cd):
     r = render(case)
     files = dict(r['files'])
     files['c.case'] = r['text']
-    files['probe'] = probe_script(cd.out, case['fam']['exit'])
+    # where the probe's stderr is not itself observed (the run instruction), every other failing probe fails silently
+    silent = (case['fam']['ctx'] == 'run' and case['fam']['exit'] != 0
+              and zlib.crc32(json.dumps(case['fam'], sort_keys=True).encode()) % 2 == 0)
+    files['probe'] = probe_script(cd.out, case['fam']['exit'], silent)
     files['emit'] = EMIT_SCRIPT
     mode = {'probe': 0o755, 'emit': 0o755}
     if case['fam']['driver'] == 'python':
